@@ -2339,7 +2339,17 @@ where
                         .take(samples_all)
                         .collect()
                 } else {
-                    data.to_vec()
+                    // leave out the padding byte of a value with odd length
+                    let len_all = (rows as usize)
+                        * (cols as usize)
+                        * (samples_per_pixel as usize)
+                        * (bits_allocated.div_ceil(8) as usize)
+                        * (number_of_frames as usize);
+                    if data.len() == len_all + 1 && len_all % 2 == 1 {
+                        data[..len_all].to_vec()
+                    } else {
+                        data.to_vec()
+                    }
                 }
             }
             DicomValue::Sequence(..) => InvalidPixelDataSnafu.fail()?,
